@@ -12,7 +12,7 @@ from ..cfg import cfg_of, const_eval
 from ..effects import (PY, NULLABLE, SWALLOWS, MUTATES, RC_FAIL, external_effects)
 from ..bridge import binding_table
 from .common import (short, inst, live_funcs, calls_in, callee_func, member_path, enclosing_map,
-                     ancestors, thrown_type, thrown_qual, local_inits, strip_casts)
+                     ancestors, thrown_type, thrown_qual, local_inits, strip_casts, relation)
 from .equality import node_fields, tokens, _base_is, NODE_REC
 
 
@@ -326,7 +326,8 @@ def i4(ctx):
             for l in ancestors(c, parent):
                 if l.kind == 'ForStmt' and len(l.kids) > 2 and l.kids[2] is not None and \
                         l.kids[2].kind == 'BinaryOperator' and l.kids[2].op in ('<', '<=', '>', '>=', '!=') and \
-                        member_path(strip_casts(l.kids[2].kids[0])) == v:
+                        v in (member_path(strip_casts(l.kids[2].kids[0])),
+                              member_path(strip_casts(l.kids[2].kids[1]))):
                     induction = True
             if induction:
                 continue
@@ -439,15 +440,17 @@ def i3(ctx):
         for cn in cfg.nodes:
             if cn.kind != 'cond' or cn.ast is None or cn.ast.kind != 'BinaryOperator':
                 continue
-            l, r = cn.ast.kids
-            if member_path(l) != iname:
+            rel = relation(cn.ast)
+            if rel is None:
                 continue
-            rt = r.text(4)
-            if cn.ast.op == '<' and r.kind == 'UnaryOperator' and r.op == '-' and 'arity' in rt:
+            small, big, strict = rel
+            # index < -arity | arity <= index | index < 0, in either spelling
+            if member_path(small) == iname and strict and big.kind == 'UnaryOperator' and \
+                    big.op == '-' and 'arity' in big.text(4):
                 lo = cn
-            elif cn.ast.op == '>=' and 'arity' in rt:
+            elif member_path(big) == iname and not strict and 'arity' in small.text(4):
                 hi = cn
-            elif cn.ast.op == '<' and const_eval(r) == 0:
+            elif member_path(small) == iname and strict and const_eval(big) == 0:
                 neg = cn
         site = short(f)
         ok = lo is not None and hi is not None
